@@ -130,6 +130,11 @@ class HashStepOracles(Oracles):
             # a step function that claims the element it accepts (a duty the growth function has on the pinned tree): what is claimed is
             # observed; whether every placed element is claimed in time is decided end to end by the chain tables
             self.observe("claimed", frozenset(tags_of(args[1])))
+            # BitSet::remove answers whether the element was present: for the element the step is about to enter that is the availability oracle
+            return mkbool(self.choose("avail", self.DOMAINS["avail"]))
+        if (p.endswith("BitSet::insert") or path.endswith("BitSet::insert") or (name == "insert" and "bit_set" in p.split("<")[0])) and len(args) == 2:
+            # ... and a claim that is handed back when the step is rejected after all
+            self.observe("unclaimed", frozenset(tags_of(args[1])))
             return mkbool(True)
         # ---- extension queries
         if (p.startswith("Exts::") or path.startswith("Exts::")) and args:
